@@ -26,3 +26,8 @@ package keys
 //@ func NewPublicKeyFromBytes
 //@ call .Get[ ensures[cached] result1 ==> result0 != nil   // the cache only ever receives non-nil keys (Add below)
 //@ ensures[curve] result1 == nil ==> result0 != nil && result0.Curve == curve
+
+//@ func (*PublicKey).Bytes
+//@ assumed
+//@ pure
+//@ ensures fresh(result)
